@@ -408,6 +408,16 @@ func (sessScenario) Gen(r *Rng, tier string, opts map[string]string) interface{}
 		if closeBy == 0 || closeBy == 2 || closeBy == 4 {
 			sp.C2S.W = append(sp.C2S.W, wOp{K: "close"})
 		}
+		if !p.Accept && (prop == "C06" || prop == "C07" || prop == "C20") && r.Chance(1, 6) {
+			// the asynchronous server of the examples: OnData consumes what is there, hands the read buffer over for
+			// reuse (ReleaseReadAndReuse) and answers on the same stream from inside the callback; the client
+			// pipelines its requests and collects the answers
+			sp.Callback = true
+			sp.CbOps = []rOp{{K: "reply", N: 1 + r.Intn(300)}}
+			sp.S2C.R = []rOp{{K: "deadline", N: 3000}, {K: "drain"}, {K: "release"}}
+			p.Streams = append(p.Streams, sp)
+			continue
+		}
 		if !p.Accept && (prop == "C20" || (prop == "C10" && r.Chance(1, 2)) || (prop != "C06" && prop != "C19" && r.Chance(1, 4))) {
 			sp.Callback = true
 			nc := 1 + r.Intn(4)
@@ -416,6 +426,11 @@ func (sessScenario) Gen(r *Rng, tier string, opts map[string]string) interface{}
 				case 0, 1, 2:
 					sp.CbOps = append(sp.CbOps, rOp{K: "all"})
 				case 3, 4:
+					if prop == "C08" && r.Chance(1, 2) {
+						// the application keeps a zero-copy result beyond the return of OnData and releases it later
+						sp.CbOps = append(sp.CbOps, rOp{K: "keep", N: anchoredSize(r, p.Cfg)})
+						break
+					}
 					sp.CbOps = append(sp.CbOps, rOp{K: "part", N: anchoredSize(r, p.Cfg)})
 				case 5:
 					if prop == "C10" && r.Chance(1, 2) {
@@ -733,6 +748,26 @@ type dirState struct {
 	qfAtClose        uint64 // queue-full counter of the session when that Close() started
 }
 
+// sureSince tells when the first `upto` bytes of this direction had all been flushed successfully (false if a failed
+// or unfinished flush lies before that point).
+func (d *dirState) sureSince(upto int64) (time.Duration, bool) {
+	var sum int64
+	var at time.Duration
+	for _, sg := range d.m.segs {
+		if sg.status != 1 {
+			return 0, false
+		}
+		sum += int64(len(sg.data))
+		if sg.doneAt > at {
+			at = sg.doneAt
+		}
+		if sum >= upto {
+			return at, true
+		}
+	}
+	return 0, false
+}
+
 // closeWentViaSocket also recognises a Close that is still running: the peer can observe the socket notification
 // before Close() returns to the harness (the library counts the full queue before it writes to the socket).
 func (d *dirState) closeWentViaSocket(we *endState) bool {
@@ -776,6 +811,7 @@ type sessStream struct {
 }
 
 type sessWorld struct {
+	lateOnData string
 	floodDone bool
 	floodStep int64
 	plan       *sessPlan
@@ -2025,6 +2061,14 @@ func (c *streamCb) OnData(reader BufferReader) {
 	}
 	if es.closeReturned && w.on("C20") {
 		es.cbAfterClose++
+		if es.closedInCallback && es.cbAfterClose == 1 && simrt.Now()-es.closeRetAt < time.Millisecond {
+			// Close was called while the callback goroutine was running and did not wait for it: the goroutine may
+			// already be past its "still open?" test and deliver once more, at the same instant (finding
+			// F-CLOSEWINDOW). Reported at the end of the run so that it cannot hide anything else; a second
+			// invocation, or one at a later time, is reported at once.
+			w.lateOnData = fmt.Sprintf("stream %d: OnData invoked once more right after the local Close (called while the callback goroutine was running) had returned", ss.idx)
+			return
+		}
 		w.fail("C20.after_close", "stream %d: OnData invoked after the local Close had returned", ss.idx)
 		return
 	}
@@ -2060,9 +2104,76 @@ func (c *streamCb) OnData(reader BufferReader) {
 		d.consumed += int64(len(got))
 		d.rLastLen = reader.Len()
 		reader.ReleasePreviousRead()
+		ss.pins[0] = nil
 		return true
 	}
 	switch op.K {
+	case "keep":
+		// zero-copy read that stays unreleased when OnData returns (released by a later invocation or by Close)
+		n := op.N
+		if n > l {
+			n = l
+		}
+		if n < 1 {
+			n = 1
+		}
+		got, err := reader.ReadBytes(n)
+		if err != nil {
+			return
+		}
+		if !d.m.consume(got) {
+			if w.on("C20", "C06", "C07") {
+				w.failTagged(w.dataRule(), w.ctxTags(ss, 0), "stream %d: bytes offered to OnData are not the next bytes the peer flushed (absolute position %d, %d bytes)", ss.idx, d.consumed, len(got))
+			}
+			return
+		}
+		d.consumed += int64(len(got))
+		d.rLastLen = reader.Len()
+		ss.pins[0] = append(ss.pins[0], pinned{b: got, want: append([]byte(nil), got...), what: "ReadBytes in an earlier OnData"})
+		w.probe("cb_keep")
+	case "reply":
+		got, err := reader.ReadBytes(l)
+		if err != nil {
+			return
+		}
+		if !d.m.consume(got) {
+			if w.on("C20", "C06", "C07") {
+				w.failTagged(w.dataRule(), w.ctxTags(ss, 0), "stream %d: bytes offered to OnData are not the next bytes the peer flushed (absolute position %d, %d bytes)", ss.idx, d.consumed, len(got))
+			}
+			return
+		}
+		d.consumed += int64(len(got))
+		es.stream.ReleaseReadAndReuse()
+		ss.pins[0] = nil
+		d.rLastLen = es.stream.BufferReader().Len()
+		// the answer, written from inside the callback
+		d1 := ss.dirs[1]
+		n := op.N
+		data := msgBytes(ss.idx, 1, d1.msgIdx, n)
+		d1.msgIdx++
+		sg := &seg{data: data, status: 0}
+		d1.m.segs = append(d1.m.segs, sg)
+		d1.allBytes += int64(n)
+		bw := es.stream.BufferWriter()
+		if wn, e := bw.WriteBytes(data); e != nil || wn != n {
+			w.fail("C06.write", "WriteBytes(%d) in OnData returned %d, %v", n, wn, e)
+			return
+		}
+		es.inCall[0]++
+		err = es.stream.Flush(false)
+		es.inCall[0]--
+		if err == nil {
+			sg.status, sg.doneAt = 1, simrt.Now()
+			d1.sureBytes += int64(n)
+			if es.stream.inFallbackState {
+				es.usedFallback, d1.usedFallback = true, true
+			} else {
+				d1.usedShm = true
+			}
+		} else {
+			sg.status = 2
+		}
+		w.probe("cb_reply")
 	case "all":
 		consume(l)
 	case "part":
@@ -2092,6 +2203,20 @@ func (c *streamCb) OnData(reader BufferReader) {
 				}
 				w.failTagged(rule, w.ctxTags(ss, 0), "stream %d: ReadBytes(%d) inside OnData only returned on its own deadline although the peer's Close had returned %v earlier", ss.idx, n, simrt.Now()-d.closeReturnAt)
 				return
+			}
+			// ... and by the arrival of the bytes it waits for: they were all flushed successfully (no failed or
+			// unfinished flush before them) more than 3 s before the wait gave up
+			if lastErr == ErrTimeout && !es.closeInvoked && !w.sessionDead() {
+				if at, ok := d.sureSince(d.consumed + int64(n)); ok && simrt.Now()-at > 3*time.Second {
+					rule := "C20.not_offered"
+					if w.own == "C11" {
+						rule = "C11.read_hang"
+					}
+					if w.on("C20", "C11") {
+						w.failTagged(rule, w.ctxTags(ss, 0), "stream %d: ReadBytes(%d) inside OnData timed out although the bytes it waited for had all been flushed %v earlier", ss.idx, n, simrt.Now()-at)
+						return
+					}
+				}
 			}
 			_ = es.stream.SetReadDeadline(time.Time{})
 			if reader.Len() > 0 {
@@ -2332,6 +2457,11 @@ func (w *sessWorld) checkTap() {
 }
 
 func (w *sessWorld) finalOracles() {
+	defer func() {
+		if w.lateOnData != "" && !simrt.Failed() && w.on("C20") {
+			w.failTagged("C20.after_close", map[string]string{"closer": "during_ondata", "late_invocation": "single_committed"}, "%s", w.lateOnData)
+		}
+	}()
 	if w.on("C18") {
 		w.checkTap()
 		if simrt.Failed() {
